@@ -532,11 +532,11 @@ C01_CURATED = [
 
 
 class C01(Spec):
-    level_text = ('Full over the model, up to its three named failure outcomes. First sentence: C01_raises_only with C01_reachable_invariant -- '
+    level_text = ('Full over the model, up to its two named failure outcomes. First sentence: C01_raises_only with C01_reachable_invariant -- '
                   'from every session reachable through the API (option text free of U+0000..2), for every source and fuel, a failure of render '
                   'is one of: ExIntTooLong (parameter number of more than 4300 digits: known finding), ExUnsupported (author pattern outside the '
-                  'modelled regex subset: such cases are skipped by the comparison), ExFilter (the indented / macro-definition content filter '
-                  'pattern not matching what its block pattern matched: never observed, not excluded by proof). Proved unreachable: re.error, '
+                  'modelled regex subset: such cases are skipped by the comparison). Proved unreachable: re.error, the two asserts of the content '
+                  'filters of delimitedblocks.py (their searches succeed, by the completeness of the matcher: Proofs/MatchExact.v, FilterLemmas.v), '
                   'a non-participating group at every group access, an index into an empty match (no line / list / block pattern of the '
                   'generated tables matches the empty string or a lone backslash; the paragraph pattern takes at least one character), an empty '
                   'reader wherever the cursor is indexed, the quote-definition assert, int() of a malformed parameter number, an empty '
@@ -1197,7 +1197,9 @@ class C08(ExpectSpec):
                   'when nothing is pending), C08_in_order (the block loop emits the rendering of the first block followed by the rendering of the '
                   'rest from the state the first block left: doc_loop unfolding lemmas for each of the three dispatch branches), C08_blank_skip '
                   '(leading blank lines are skipped), C08_tables (names, tags and container/verbatim expansion of the generated block table). '
-                  'The per-kind functional equations need regex completeness and are decided by the block-grammar oracle and correspondence.')
+                  'C08_matcher_sound_and_complete, C08_match_iff, C08_search_complete, C08_patterns_exact (dispatch is first-match: the model\'s backtracking '
+                  'matcher finds a match exactly when one exists in the exact declarative semantics mx, for 79 of the 82 generated patterns). '
+                  'The per-kind functional equations are decided by the block-grammar oracle and correspondence.')
     rule = ('documents from a block grammar (paragraph, header, fenced code, indented, quote paragraph, quote/division blocks nested to depth 3 '
             'with distinct delimiters and optional class names, HTML block, comments, definitions; 1-2 blank lines) in every safe mode; '
             'expected HTML predicted from the block list; non-trivial = more than one block kind')
@@ -1674,7 +1676,11 @@ class C02(Spec):
                   'soundness lemma (under every unbounded repetition the alternatives start with different characters, over Latin-1, so a loop has '
                   'one iteration history per subject), C02_split_pattern, C02_no_macro_definitions (modes without bit 8 cannot grow the reader '
                   'through new macros), C02_fuel_monotone (the model\'s fuel is only a termination device: a result obtained with some fuel is '
-                  'the result with every larger fuel, for every source, options and session). Termination of the block loop for every '
+                  'the result with every larger fuel, for every source, options and session), C02_spans_terminate with '
+                  'C02_default_definitions_terminate and C02_group_strictly_shorter (spans.render returns with fuel length+4, for every source, '
+                  'whenever no replacement pattern matches the empty string and every group a template hands to a nested spans.render starts '
+                  'after the start of its match: a decidable condition that holds of the generated defaults and fails for the self-matching '
+                  'definition of the known finding). Termination of the block loop for every '
                   'input is NOT proved (macro-line expansion can grow the reader; the unchanged code does loop, see known findings), and '
                   'running time is runtime behaviour: both are decided by pumped-input timing against the implementation and the '
                   'model/implementation comparison of ok/timeout.')
